@@ -569,6 +569,9 @@ func buildRequestHead(ex *exchange) []byte {
 	return b.Bytes()
 }
 
+// run performs one exchange. Like every real HTTP client it retries once on a
+// fresh connection when a reused keep-alive connection turns out to be dead
+// before a single response byte arrived.
 func (c *sClient) run(ex *exchange) {
 	env := c.env
 	if ex.pause > 0 {
@@ -581,6 +584,18 @@ func (c *sClient) run(ex *exchange) {
 	if ex.newConn {
 		c.dropConn()
 	}
+	reused := c.conn != nil
+	c.runOnce(ex)
+	if reused && ex.got != nil && ex.got.status == 0 && strings.HasPrefix(ex.got.err, "read-response:") && ex.abortUploadAt < 0 {
+		env.x.Logf("client %d: stale keep-alive connection, retrying ex=%d on a new one", c.id, ex.id)
+		c.dropConn()
+		ex.got = nil
+		c.runOnce(ex)
+	}
+}
+
+func (c *sClient) runOnce(ex *exchange) {
+	env := c.env
 	if c.conn == nil {
 		conn, err := env.net.Dial(fmt.Sprintf("client%d", c.id), c.addr, heliosAddr, 0, c.quit)
 		if err != nil {
